@@ -35,6 +35,9 @@ type Op struct {
 	// CAS is put into the request header's CAS field (binary). rend ignores the field; it must not
 	// leak anywhere.
 	CAS uint64 `json:"cas,omitempty"`
+	// Gone (full-stack harnesses): the client has gone away by the time the server writes its reply
+	// (the write fails); the command itself has been received in full.
+	Gone bool `json:"gone,omitempty"`
 	// Seg: how the request's bytes reach the server (full-stack harnesses): "" in one piece, "h" the
 	// first 24 bytes (a binary header) then the rest, "1" the first byte then the rest, "b" byte by
 	// byte, "3" in 3-byte pieces, "l" everything but the last byte, then the last byte.
